@@ -15,6 +15,9 @@ A case is a small group of record literals ("operands") over one shared *plan*:
   rec      = nested literals / piecewise definitions (`s.u = ..`, `s = {..}` several times, mixed), inner names
              drawn from the same pool (they shadow the outer fields), with a chosen relation between the sets
              of outer siblings the operands' definitions depend on.
+  aliases  = operands under `let Ca = <contract> in {..}`: one name, per-operand definitions, on constant fields.
+  arrays   = of records with field metadata, written with different metadata by different operands (known finding
+             array-merge-keeps-right-metadata: see ARRAY_KEY).
   values   = constants, references, arithmetic, interpolation, arrays, std.array.{map,fold_left,generate},
              applied lambdas, let (plain / pattern / several bindings), match (record, variant, array patterns),
              if, projections of literals; every binder name comes from POOL, preferably one that shadows a field
@@ -71,6 +74,8 @@ def show(e):
         return "".join("let %s = %d in " % (x, v) for x, v in e[1]) + show(e[2])
     if t == "src":           # verbatim source (corpus)
         return e[1]
+    if t == "clet":          # operand-local contract aliases: let Ca = <contract> in { .. }
+        return "(%s%s)" % ("".join("let %s = %s in " % (n, c) for n, c in e[1]), show(e[2]))
     raise ValueError(e)
 
 
@@ -144,6 +149,8 @@ def mapsub(e, f):
         return ("merge", f(e[1]), f(e[2]))
     if t == "wrap":
         return ("wrap", e[1], f(e[2]))
+    if t == "clet":
+        return ("clet", e[1], f(e[2]))
     raise ValueError(e)
 
 
@@ -185,8 +192,12 @@ def forms(e, acc):
                 if a.get(x):
                     kk = "ann:" + (x if x != "prio" else "prio=" + str(a[x]))
                     acc[kk] = acc.get(kk, 0) + 1
+    elif t == "clet":
+        acc["operand under local contract aliases"] = acc.get("operand under local contract aliases", 0) + 1
     elif t not in ("merge", "wrap", "src"):
         acc[t] = acc.get(t, 0) + 1
+    if t == "arr" and any(x[0] == "lit" and any(k != "_ty" and k != "_id" for en in x[1] for k in en[1]) for x in e[1]):
+        acc["array of records with field metadata"] = acc.get("array of records with field metadata", 0) + 1
     mapsub(e, lambda x: (forms(x, acc), x)[1])
 
 
@@ -216,6 +227,19 @@ class Site:
         return env
 
 
+# contracts an operand may bind to a local alias, with the python reading of which numbers they accept
+PREDS = [
+    ("std.contract.from_predicate (fun x => x > 0)", lambda v: v > 0),
+    ("std.contract.from_predicate (fun x => x > 4)", lambda v: v > 4),
+    ("std.contract.from_predicate (fun x => x < 3)", lambda v: v < 3),
+    ("std.contract.from_predicate (fun x => x % 2 == 0)", lambda v: v % 2 == 0),
+    ("std.contract.from_validator (fun x => if x < 7 then 'Ok else 'Error { message = \"big\" })", lambda v: v < 7),
+    ("Number", lambda v: True),
+    ("std.contract.from_predicate (fun x => std.is_number x)", lambda v: True),
+    ("String", lambda v: False),
+]
+
+
 class Gen:
     def __init__(self, rng):
         self.rng = rng
@@ -223,6 +247,7 @@ class Gen:
         self.shadow = {}          # kinds of shadowing that occurred
         self.rel = {}             # dependency-set relations between operands' definitions of a record field
         self.over = {}            # overriding
+        self.alias = None         # contract aliases of the current case: {name: [index into PREDS, one per operand]}
 
     def note(self, k):
         self.shadow[k] = self.shadow.get(k, 0) + 1
@@ -248,7 +273,7 @@ class Gen:
         return x
 
     def names_of(self, env, ty):
-        return sorted(x for x, (t, _) in env.items() if t == ty)
+        return sorted(x for x, (t, _) in env.items() if t == ty or (ty == "num" and t == "cnum"))
 
     def ref(self, env, x, refs):
         if env[x][1] != LOCAL:
@@ -273,10 +298,15 @@ class Gen:
 
     def base(self, ty, env, refs):
         rng = self.rng
+        if ty == "cnum":          # a number that local contract aliases are going to judge
+            ok = [v for v in range(9) if all(PREDS[i][1](v) for idx in self.alias.values() for i in idx)] if self.alias else []
+            return ("num", rng.choice(ok) if ok and rng.chance(11, 20) else rng.below(9))
+        if ty == "rarr":
+            return self.rarr_value(env, refs)
         cands = [("r", x) for x in self.names_of(env, ty)]
         cands += [("p", e, lid) for e, t, lid in self.projections(env) if t == ty]
         if ty == "num":
-            cands += [("len", x) for x in self.names_of(env, "arr")] + [("slen", x) for x in self.names_of(env, "str")]
+            cands += [("len", x) for x in self.names_of(env, "arr") + self.names_of(env, "rarr")] + [("slen", x) for x in self.names_of(env, "str")]
         if cands and rng.chance(5, 6):
             c = rng.choice(cands)
             if c[0] == "r":
@@ -310,11 +340,77 @@ class Gen:
 
     def expr(self, ty, env, d, refs):
         rng = self.rng
-        if d <= 0 or rng.chance(1, 4):
+        if d <= 0 or rng.chance(1, 4) or ty in ("cnum", "rarr"):
             return self.base(ty, env, refs)
         if ty == "tag" or rng.chance(2, 5):
             return self.wrapper(ty, env, d, refs)
         return self.composite(ty, env, d, refs)
+
+    def rarr_value(self, env, refs, depth=0):
+        """an array whose elements are records (or arrays of records); the field metadata is added per operand
+        by `decorate`, so that operands write the same data with different metadata"""
+        rng = self.rng
+        elems = []
+        for _ in range(rng.range(1, 2 if depth else 3)):
+            if depth == 0 and rng.chance(1, 7):
+                elems.append(self.rarr_value(env, refs, depth + 1))
+                continue
+            pool = rng.shuffle(POOL)
+            names = sorted(pool[:rng.range(1, 3)], key=lambda x: ORD[x])
+            ghost = pool[-1]      # may be declared `| optional` by some operands: nothing refers to it
+            env2 = {k: v for k, v in env.items() if k not in names and k != ghost}
+            ents = [([ghost], {"_ghost": True, "opt": True}, None)]
+            for x in names:
+                c = rng.below(10)
+                if c < 5:
+                    t, v = "num", (("num", rng.choice([0, 1, 2, 5])) if rng.chance(2, 3) else self.base("num", env2, refs))
+                elif c < 7:
+                    t, v = "str", ("str", rng.choice(["s", "t"]))
+                elif c < 8:
+                    t, v = "arr", ("arr", [("num", 1), ("num", 2)][:rng.range(1, 2)])
+                elif depth < 1:
+                    t, v = "rarr", self.rarr_value(env2, refs, depth + 1)
+                else:
+                    t, v = "num", ("num", 3)
+                ents.append(([x], {"_ty": t}, v))
+            elems.append(("lit", ents))
+        return ("arr", elems)
+
+    def decorate(self, e, inside=False):
+        """the same array with field metadata on its elements' fields"""
+        rng = self.rng
+        if e[0] == "arr":
+            return ("arr", [self.decorate(x, True) for x in e[1]])
+        if e[0] == "lit" and inside:
+            out = []
+            for p, a, v in e[1]:
+                if a.get("_ghost"):
+                    if rng.chance(1, 4):
+                        out.append((p, {"opt": True}, None))
+                    continue
+                a2 = {"_ty": a.get("_ty")}
+                c = rng.below(100)
+                if c < 24:
+                    a2["hid"] = True
+                elif c < 32:
+                    a2["opt"] = True
+                elif c < 40:
+                    a2["prio"] = "default"
+                elif c < 45:
+                    a2["prio"] = rng.choice(["force", 3])
+                elif c < 57:
+                    good = {"num": "Number", "str": "String", "arr": "Array Number", "rarr": "Array Dyn"}[a2["_ty"]]
+                    a2["ctr"] = [good if rng.chance(9, 10) else ("String" if good != "String" else "Number")]
+                out.append((p, a2, self.decorate(v, True)))
+            return ("lit", rng.shuffle(out))
+        return e
+
+    def undecorated(self, e, inside=False):
+        if e[0] == "arr":
+            return ("arr", [self.undecorated(x, True) for x in e[1]])
+        if e[0] == "lit" and inside:
+            return ("lit", [(p, a, self.undecorated(v, True)) for p, a, v in e[1] if not a.get("_ghost")])
+        return e
 
     def mini_literal(self, env, d, refs, n=2):
         """a literal inside an expression, `{x = .., y = ..}`, with field names from the pool (they are in scope
@@ -451,8 +547,11 @@ class Gen:
         wrec = [33, 18, 0][min(depth, 2)]
         ty = {}
         for i, x in enumerate(names):
-            t = rng.weighted([("num", 42), ("str", 10), ("arr", 10), ("tag", 5), ("rec", 0 if top and i == 0 else wrec)])
+            t = rng.weighted([("num", 42), ("str", 10), ("arr", 10), ("tag", 5), ("rec", 0 if top and i == 0 else wrec),
+                              ("rarr", 7 if depth < 2 else 0), ("cnum", 22 if self.alias else 0)])
             ty[x] = t
+        if top and self.alias and not any(t == "cnum" for t in ty.values()):
+            ty[rng.choice(names[:-1])] = "cnum"
         if top and rng.chance(9, 10) and not any(ty[x] == "rec" for x in names[-2:]):
             ty[rng.choice(names[-2:])] = "rec"         # late in the order: it has siblings to depend on
         for x in names:
@@ -505,8 +604,14 @@ class Gen:
             a["opt"] = True
         if rng.chance(1, 14):
             a["hid"] = True
+        if ty == "cnum":
+            if self.alias and rng.chance(3, 4):
+                a["ctr"] = [rng.choice(sorted(self.alias))]
+                if rng.chance(1, 6):
+                    a["ctr"].append(rng.choice(sorted(self.alias) + ["Number"]))
+            return a
         if rng.chance(1, 4 if bare else 6):
-            c = {"num": "Number", "str": "String", "arr": "Array Number", "tag": "[| 'Ta, 'Tb |]"}.get(ty)
+            c = {"num": "Number", "str": "String", "arr": "Array Number", "tag": "[| 'Ta, 'Tb |]", "rarr": "Array Dyn"}.get(ty)
             if c:
                 a["ctr"] = [c]
             elif rng.chance(1, 2):
@@ -561,14 +666,16 @@ class Gen:
                 for gi, s in enumerate(grp):
                     if gi == odd:     # rarely: an unrelated definition at the same priority (a conflict, unless overridden:
                         r2 = set()    # every order must then fail)
-                        s.entries.append(([x], self.ann(ty, l), self.expr(ty, s.env(x), d, r2)))
+                        v2 = self.expr(ty, s.env(x), d, r2)
+                        s.entries.append(([x], self.ann(ty, l), self.decorate(v2) if ty == "rarr" else v2))
                         s.refs |= r2
                         self.note_conflict()
                         continue
                     s.refs |= refs
-                    s.entries.append(([x], self.ann(ty, l), val))
-                    if s.form == "lit" and rng.chance(1, 25):
-                        s.entries.append(([x], self.ann(ty, l), val))      # the same field written twice
+                    mine = val if ty != "rarr" else self.undecorated(val) if rng.chance(1, 3) else self.decorate(val)
+                    s.entries.append(([x], self.ann(ty, l), mine))
+                    if s.form == "lit" and rng.chance(1, 25):      # the same field written twice
+                        s.entries.append(([x], self.ann(ty, l), mine if ty != "rarr" or rng.chance(1, 2) else self.decorate(val)))
         for s in sites:
             if s.form != "lit":
                 continue
@@ -687,6 +794,12 @@ class Gen:
         if rng.chance(1, 2):
             lets = [(x, 101 + ORD[x]) for x in POOL if rng.chance(3, 5)]
         outer = {x: ("num", LOCAL) for x, _ in lets}
+        self.alias = None
+        if rng.chance(3, 10):      # operands under `let Ca = <contract> in`: same names, per operand definitions
+            self.alias = {}
+            for nm in ["Ca", "Cb"][:rng.range(1, 2)]:
+                first = rng.below(len(PREDS))
+                self.alias[nm] = [first if rng.chance(2, 5) else rng.below(len(PREDS)) for _ in range(k)]
         plan = self.plan(0, top=True)
         sites = [self.new_site(plan, "lit", outer, defs, top=True) for defs in self.assign_defs(plan, k, top=True)]
         self.fill(plan, sites, rng.range(2, 3), top=True)
@@ -698,7 +811,12 @@ class Gen:
         k = ("overridden field that other fields depend on" if any((plan.uid, x) in used for x in over)
              else "overridden field nothing depends on" if over else "no field defined with two priorities")
         self.over[k] = self.over.get(k, 0) + 1
-        return lets, [("lit", s.entries) for s in sites]
+        ops = [("lit", s.entries) for s in sites]
+        if self.alias:
+            ops = [("clet", [(nm, PREDS[idx[i]][0]) for nm, idx in sorted(self.alias.items())], o) for i, o in enumerate(ops)]
+            kinds = "same name, different definitions" if any(len(set(idx)) > 1 for idx in self.alias.values()) else "same definitions"
+            self.over["contract aliases: " + kinds] = self.over.get("contract aliases: " + kinds, 0) + 1
+        return lets, ops
 
 
 # ===================================================================== running
@@ -892,6 +1010,100 @@ def known_key(ck, key):
     return key in [v["key"] for v in ck.violations] or any(k["property"] == ck.pid and k["key"] == key for k in ck.known)
 
 
+# --------------------------------------------------------------------- the array-merge finding
+# `a1 & a2` on arrays is `a2 | std.contract.Equal a1`: the result is the RIGHT operand's array, so the metadata of
+# the fields of its elements (not_exported, contracts, ...) depends on the operand order, while Equal only compares
+# values.  Recorded in known_findings.txt under this key; recognised by: the case has field metadata inside array
+# elements, the group agrees once that metadata is erased, and (JSON, all programs exporting) the exports are equal
+# after removing, from records inside arrays, the fields that carry metadata in some operand.
+ARRAY_KEY = "array-merge-keeps-right-metadata"
+
+
+def meta_in_arrays(e, inside=False, acc=None):
+    """names of the fields that carry metadata (or have no value) inside array elements"""
+    acc = set() if acc is None else acc
+    t = e[0]
+    if t == "arr":
+        for x in e[1]:
+            meta_in_arrays(x, True, acc)
+    elif t == "lit":
+        for p, a, v in e[1]:
+            if inside and (v is None or any(k not in ("_ty", "_id") for k in a)):
+                acc.add(p[0])
+            if v is not None:
+                meta_in_arrays(v, inside, acc)
+    else:
+        mapsub(e, lambda x: (meta_in_arrays(x, inside, acc), x)[1])
+    return acc
+
+
+def erase_array_meta(e, inside=False):
+    t = e[0]
+    if t == "arr":
+        return ("arr", [erase_array_meta(x, True) for x in e[1]])
+    if t == "lit":
+        out = []
+        for p, a, v in e[1]:
+            if inside and v is None:
+                continue
+            a2 = {k: x for k, x in a.items() if k == "_id"} if inside else a
+            out.append((p, a2, erase_array_meta(v, inside) if v is not None else None))
+        return ("lit", out)
+    return mapsub(e, lambda x: erase_array_meta(x, inside))
+
+
+def strip_keys(j, keys, inside=False):
+    if isinstance(j, list):
+        return [strip_keys(x, keys, True) for x in j]
+    if isinstance(j, dict):
+        return {k: strip_keys(v, keys, inside) for k, v in j.items() if not (inside and k in keys)}
+    return j
+
+
+def array_shape(flags, rs, keys):
+    """do the results differ the way the array-merge finding makes them differ?"""
+    ok = [r for r in rs if r.startswith("OK")]
+    if len(ok) < len(rs):      # a contract on an element's field, kept in one order only
+        return all(r.startswith("OK") or r.startswith("ERR Blame") for r in rs)
+    if flags != "fmt=json":
+        return True
+    try:
+        docs = [strip_keys(json.loads(json.loads(r[3:])), keys) for r in rs]
+    except ValueError:
+        return False
+    return all(d == docs[0] for d in docs)
+
+
+def report(ck, nk, flags, prefix, c, gi, law, progs, labels, rs, note=None):
+    """a disagreeing group of case c: reduce it and report it as a violation of the property"""
+    how = "feed `<flags><TAB><program>` lines to .build/target/debug/nkeval (newlines escaped): all programs of a group must print the same OK line, or all ERR"
+    rep = {"rich": True, "descr": c.descr, "how_to_replay": how,
+           "groups": [{"law": law, "flags": flags, "programs": progs, "results": dict(zip(labels, rs))}]}
+    if note:
+        rep["note"] = note
+    k, (l1, l2) = failing_pair(law, labels, rs)
+    key = "%s:%s" % (prefix, k)
+    if known_key(ck, key):
+        ck.violation(key, "", rep)      # counts a known finding as reproduced / a second witness of a reported key
+        return
+    small, runs = shrink(nk, flags, c, gi, l1, l2)
+    sg = small.groups()[gi][1]
+    rs2 = run_progs(ck, nk, flags, [sg[l1], sg[l2]], prefix)
+    rep["original_case"] = rep.pop("groups")
+    rep["groups"] = [{"law": k, "flags": flags, "programs": {l1: sg[l1], l2: sg[l2]}, "results": {l1: rs2[0], l2: rs2[1]}}]
+    rep["reduced"] = {"lets": small.lets, "programs": {nm: show(r) for nm, r in small.roots.items()}, "interpreter_runs": runs}
+    if agree(rs2):      # cannot happen (every accepted step was checked); keep the original then
+        rep["groups"] = rep["original_case"]
+        sg, rs2 = progs, [dict(zip(labels, rs))[l1], dict(zip(labels, rs))[l2]]
+    shown = "; ".join("%s = %s" % (nm, show(r)) for nm, r in small.roots.items()) if law != "order" else sg[l1]
+    if small.lets and law != "order":
+        shown = "under " + " ".join("let %s = %d in" % x for x in small.lets) + " " + shown
+    text = "%s on recursive records: `%s` gives %s but `%s` gives %s;  %s" % (LAW_TEXT.get(k, k), l1, rs2[0][:40], l2, rs2[1][:40], shown)
+    if law == "order":
+        text += "   VS `%s`:   %s" % (l2, sg[l2])
+    ck.violation(key, text[:1500], rep)
+
+
 def check_cases(ck, nk, cases, flags="fmt=json", prefix="rich"):
     """evaluates every distinct program once, applies the oracle to each group of each case; a disagreeing case
     is reduced before it is reported; returns per case the result of its first program"""
@@ -905,41 +1117,43 @@ def check_cases(ck, nk, cases, flags="fmt=json", prefix="rich"):
                     seen[s] = len(srcs)
                     srcs.append(s)
     out = run_progs(ck, nk, flags, srcs, prefix)
-    firsts = []
-    how = "feed `<flags><TAB><program>` lines to .build/target/debug/nkeval (newlines escaped): all programs of a group must print the same OK line, or all ERR"
+    firsts, suspects = [], []
     for c, groups in zip(cases, allg):
         firsts.append(out[seen[list(groups[0][1].values())[0]]])
         for gi, (law, progs) in enumerate(groups):
             labels = list(progs.keys())
             rs = [out[seen[s]] for s in progs.values()]
-            rep = {"rich": True, "descr": c.descr, "how_to_replay": how,
-                   "groups": [{"law": law, "flags": flags, "programs": progs, "results": dict(zip(labels, rs))}]}
             for r in rs:
                 if m.crashed(r):
-                    ck.violation(prefix + ":crash", "interpreter crashed on a merge of recursive records: %s" % r[:80], rep)
+                    ck.violation(prefix + ":crash", "interpreter crashed on a merge of recursive records: %s" % r[:80],
+                                 {"rich": True, "descr": c.descr, "groups": [{"law": law, "flags": flags, "programs": progs, "results": dict(zip(labels, rs))}]})
             if agree(rs):
                 continue
-            k, (l1, l2) = failing_pair(law, labels, rs)
-            key = "%s:%s" % (prefix, k)
-            if known_key(ck, key):
-                ck.violation(key, "", rep)      # counts a known finding as reproduced
-                continue
-            small, runs = shrink(nk, flags, c, gi, l1, l2)
-            sg = small.groups()[gi][1]
-            rs2 = run_progs(ck, nk, flags, [sg[l1], sg[l2]], prefix)
-            rep["original_case"] = rep.pop("groups")
-            rep["groups"] = [{"law": k, "flags": flags, "programs": {l1: sg[l1], l2: sg[l2]}, "results": {l1: rs2[0], l2: rs2[1]}}]
-            rep["reduced"] = {"lets": small.lets, "programs": {nm: show(r) for nm, r in small.roots.items()}, "interpreter_runs": runs}
-            if agree(rs2):      # cannot happen (every accepted step was checked); keep the original then
-                rep["groups"] = rep["original_case"]
-                sg, rs2 = progs, [dict(zip(labels, rs))[l1], dict(zip(labels, rs))[l2]]
-            shown = "; ".join("%s = %s" % (nm, show(r)) for nm, r in small.roots.items()) if law != "order" else sg[l1]
-            if small.lets and law != "order":
-                shown = "under " + " ".join("let %s = %d in" % x for x in small.lets) + " " + shown
-            text = "%s on recursive records: `%s` gives %s but `%s` gives %s;  %s" % (LAW_TEXT.get(k, k), l1, rs2[0][:40], l2, rs2[1][:40], shown)
-            if law == "order":
-                text += "   VS `%s`:   %s" % (l2, sg[l2])
-            ck.violation(key, text[:1500], rep)
+            keys = set()
+            for r in c.roots.values():
+                meta_in_arrays(r, acc=keys)
+            if keys:
+                suspects.append((c, gi, law, progs, labels, rs, keys))
+            else:
+                report(ck, nk, flags, prefix, c, gi, law, progs, labels, rs)
+    if suspects:
+        # the same groups with the field metadata inside array elements erased, evaluated in one go
+        erased = [Case(c.descr, c.lets, {nm: erase_array_meta(r) for nm, r in c.roots.items()}, c.groups_of) for c, *_ in suspects]
+        eg = [e.groups()[sp[1]][1] for e, sp in zip(erased, suspects)]
+        esrcs = sorted(set(s for g in eg for s in g.values()))
+        eout = dict(zip(esrcs, run_progs(ck, nk, flags, esrcs, prefix + "-erased")))
+        for (c, gi, law, progs, labels, rs, keys), e, g in zip(suspects, erased, eg):
+            ers = [eout[s] for s in g.values()]
+            if agree(ers) and array_shape(flags, rs, keys):
+                ck.hist(prefix + " known finding reproduced", ARRAY_KEY)
+                ck.violation(ARRAY_KEY, "merging arrays keeps the metadata of the right operand's elements: %s differ only by fields carrying metadata inside array elements: %s" % (
+                    " / ".join(labels[:3]), list(progs.values())[0][:600]),
+                    {"rich": True, "descr": c.descr, "groups": [{"law": law, "flags": flags, "programs": progs, "results": dict(zip(labels, rs))}]})
+            elif not agree(ers):
+                # something else: it survives without the array metadata, reduce and report that version
+                report(ck, nk, flags, prefix, e, gi, law, g, list(g.keys()), ers, note="field metadata inside array elements erased first (array-merge finding excluded)")
+            else:
+                report(ck, nk, flags, prefix, c, gi, law, progs, labels, rs)
     return firsts
 
 
@@ -1088,7 +1302,14 @@ RULE = ("Recursive-record stream (direct oracle on the interpreter, no model): o
         "level share their expression, higher levels override fields other fields depend on; 1 group in 25 gets a deliberately "
         "conflicting definition, which every order must reject unless it is overridden); now and then a priority on a declaration "
         "without value; optional (also never defined), not_exported, contracts Number / String / Array Number / enum / { .. }; "
-        "half of the programs under outer lets binding the same names. A disagreeing case is reduced (fields deleted, values "
+        "half of the programs under outer lets binding the same names; 3 cases in 10 put every operand under `let Ca = <contract> "
+        "in {..}` (aliases of the same names bound per operand to the same or to different predicates / validators / types, whose "
+        "verdict on a number is known to the generator) and annotate constant number fields with them, the constants chosen to "
+        "satisfy every definition (11 in 20) or at random (so that one operand's definition accepts what another's rejects); "
+        "arrays of records / nested arrays whose elements' fields carry metadata (not_exported, optional with / without value, "
+        "default, force, priority, contracts right and wrong), the same array written by the operands with different metadata or "
+        "none (the disagreements this causes are the known finding array-merge-keeps-right-metadata, recognised by erasing that "
+        "metadata). A disagreeing case is reduced (fields deleted, values "
         "replaced by sub-expressions / constants, annotations and lets dropped) before it is reported.")
 
 
